@@ -96,18 +96,24 @@ func NewCatalog() *Catalog {
 		}
 		sort.Strings(c.Names[km])
 	}
+	// Every command gets a harness sequence (^\ + two characters) in each main
+	// keymap where it has no usable default binding.
+	_ = bound
 	i := 0
 	for _, name := range c.Commands {
-		if bound[name] {
+		var missing []string
+		for _, km := range MainKeymaps {
+			if len(c.Binds[km][name]) == 0 {
+				missing = append(missing, km)
+			}
+		}
+		if len(missing) == 0 {
 			continue
 		}
-		if i >= len(extraChars) {
-			break
-		}
-		seq := "\x1c" + string(extraChars[i])
+		seq := "\x1c" + string(extraChars[i/len(extraChars)]) + string(extraChars[i%len(extraChars)])
 		i++
 		c.ExtraSeq[name] = seq
-		for _, km := range MainKeymaps {
+		for _, km := range missing {
 			c.Extra = append(c.Extra, wire.BindSpec{Keymap: km, Seq: wire.Bytes(seq), Action: name})
 			c.Binds[km][name] = append(c.Binds[km][name], seq)
 			c.Names[km] = append(c.Names[km], name)
